@@ -1,13 +1,13 @@
 /-
   Memory accounting bound of the threaded-decoder model: coder->mem_in_use plus the memory of the queued outbufs, plus what
-  the Block that has been admitted but not yet entered costs, never exceeds memlimit_threading. Consequently the truncated
+  the Block that has been let in but not yet queued costs, never exceeds memlimit_threading. Consequently the truncated
   subtraction in `canStartNow` (uint64_t arithmetic in the C code) never truncates.
 -/
 import XzVerif.Lemmas.MtDecBasic
 
 namespace XzVerif.MtDec
 
-/-- Memory the admitted-but-not-yet-queued Block will take. -/
+/-- Memory the accepted-but-not-yet-queued Block will take. -/
 def pendMem (s : State) : Nat :=
   match s.pc with
   | .rowDone _ _ true => (blk s s.cur).memThr + (blk s s.cur).memOut
@@ -102,7 +102,7 @@ theorem flagPend_mem (s : State) : MemCore s (flagPend s) := by
   · exact ⟨rfl, rfl, rfl, rfl, Nat.le_refl _⟩
   · exact MemCore.refl s
 
-/-- The bound for a state whose admitted Block is not pending, transported along `MemCore`. -/
+/-- The bound for a state with no accepted Block pending, transported along `MemCore`. -/
 theorem MemInv.core {a b : State} (h : a.memInUse + outqMem a ≤ a.cfg.memLimit) (c : MemCore a b) :
     b.memInUse + outqMem b ≤ b.cfg.memLimit := by
   rw [c.mem, c.cfg]; have := c.outq; omega
